@@ -151,6 +151,7 @@ func runC04(c *Ctx) {
 	c04Exemptions(c, t)
 	c04AllNames(c)
 	// (4) previous-driven adapters
+	c.Rule("ADAPTERS-UNFILTERED", "no pair adapter filters the pairs it hands to its rules by a property of the elements", 8)
 	pkU := p.Pkg(pkgCheckUtil)
 	l := newLabeler(p, checkPkgs(p))
 	l.Run(seedHandlerParams(l, t))
@@ -175,8 +176,12 @@ func runC04(c *Ctx) {
 				}
 			}
 			c.Ob("PREVIOUS-DRIVEN", fr.ID(), site.Call.Pos(), okAll && loops > 0, true, "the callback is invoked inside %d loop(s), all ranging over previous collections: %v", loops, okAll)
+			filter := adapterFilterCond(p, l, site.Call, site.Info, site.Frames[0].Decl)
+			c.Ob("ADAPTERS-UNFILTERED", fr.ID(), site.Call.Pos(), filter == "", true,
+				"no condition around the callback consults the elements: every existing pair reaches the rules of this scope, as it reaches those of the enclosing scope (FILE ⇒ PACKAGE needs the file rules to see every file the package rules see): %q", filter)
 		}
 	}
+	ruleEqualityHelper(c, "EQUALITY-HELPER", checkPkgs(p))
 	c04Extra(c)
 	c04NormaliseTotal(c)
 	c04NilOutSameSide(c)
